@@ -274,7 +274,9 @@ func zzC04ReadYearFile(n, year int) {
 		vObserve("tmp", s.TMP[0][k])
 	}
 	vAssert("C04.yearfile.year_and_length", s.JAR[0] == year && s.MaxYearDays[0] == n)
-	vAssert("C04.yearfile.station_line", s.ALTITUDE == vFloat("alt") && s.WINDHI == vFloat("windhi") && s.hasALTITUDE && s.hasWINDHI)
+	g.ALTI, g.WINDHI = 11, 22 // configuration values: the station line of the file overrides them
+	errL := LoadYear(g, &s, year)
+	vAssert("C04.yearfile.station_line_reaches_run_state", errL == nil && g.ALTI == vFloat("alt") && g.WINDHI == vFloat("windhi"))
 }
 
 // ---- C13: the same weather in the three layouts gives the same year in the run state
